@@ -25,7 +25,8 @@ Local Open Scope N_scope.
    be run; HdrparseProofs.h_rtrim_eq / h_last_is_eq / h_strip_last_eq / h_proc_line_eq prove them equal
    to the ClenModel originals. *)
 Definition frev (l : bytes) : bytes := rev_append l [].
-Definition h_rtrim (l : bytes) : bytes := frev (snd (span c_isspace (frev l))).
+Definition h_rtrim_by (p : N -> bool) (l : bytes) : bytes := frev (snd (span p (frev l))).
+Definition h_rtrim (l : bytes) : bytes := h_rtrim_by c_isspace l.
 Definition h_last_is (p : N -> bool) (l : bytes) : bool :=
   match frev l with c :: _ => p c | [] => false end.
 Definition h_strip_last (l : bytes) : bytes := frev (tl (frev l)).
@@ -63,10 +64,15 @@ Definition canon_name (name : bytes) : N * bytes :=
 Definition ID_CL : N := fst (canon_name name_content_length).
 Definition ID_TE : N := fst (canon_name name_transfer_encoding).
 
+(* "trimmable": around the framing-sensitive Content-Length and Transfer-Encoding values only SP and
+   HTAB are dropped, around every other value all of xisspace() (is_wsp, ltrim_by: ClenModel) *)
+Definition framing_id (id : N) : bool := (id =? ID_CL) || (id =? ID_TE).
+Definition value_ws (id : N) : N -> bool := if framing_id id then is_wsp else c_isspace.
+
 (* HttpHeaderEntry::parse(field_start, field_end, msgType); req = (msgType == hoRequest), the other
    owner modelled is hoReply (for which stripWhitespace is true in both parser modes).
    The value goes through String::assign and then the HttpHeaderEntry constructor's
-   `value = aValue` (a C string): it ends at the first NUL. *)
+   `value = aValue` (a C string): it ends at the first NUL.  The id lookup precedes the value trim. *)
 Definition h_entry_parse (req : bool) (field : bytes) : option hentry :=
   let '(name, rest) := span (fun c => negb (c =? 58)) field in
   match rest with
@@ -81,10 +87,11 @@ Definition h_entry_parse (req : bool) (field : bytes) : option hentry :=
       | _ =>
         if negb (forallb cs_TCHAR name') then None
         else
-          let value := h_rtrim (ltrim after) in
+          let '(id, nm) := canon_name name' in
+          let trimmable := value_ws id in
+          let value := h_rtrim_by trimmable (ltrim_by trimmable after) in
           if 65534 <? lenN value then None
-          else let '(id, nm) := canon_name name' in
-               Some {| he_id := id; he_name := nm; he_value := c_str value |}
+          else Some {| he_id := id; he_name := nm; he_value := c_str value |}
       end
   end.
 
@@ -259,12 +266,19 @@ Fixpoint ref_group_text (relaxed : bool) (g : list bytes) : bytes :=
   | l :: r => ref_line_text relaxed l ++ ref_eol l ++ ref_group_text relaxed r
   end.
 
-(* 4. field-line = name ":" OWS value OWS *)
+(* 4. field-line = name ":" OWS value OWS
+   OWS is SP / HTAB (RFC 9110 5.5) and that is all that is removed around Content-Length and
+   Transfer-Encoding values; around other values (and after a reply's field name) Squid also removes
+   LF VT FF CR (documented tolerance). *)
 Definition ref_ows (c : N) : bool := (c =? 32) || (c =? 9) || (c =? 10) || (c =? 11) || (c =? 12) || (c =? 13).
-Fixpoint ref_trim_left (l : bytes) : bytes :=
-  match l with c :: r => if ref_ows c then ref_trim_left r else l | [] => [] end.
-Definition ref_trim_right (l : bytes) : bytes := rev (ref_trim_left (rev l)).
-Definition ref_trim (l : bytes) : bytes := ref_trim_right (ref_trim_left l).
+Definition ref_wsp (c : N) : bool := (c =? 32) || (c =? 9).
+Fixpoint ref_trim_left (ws : N -> bool) (l : bytes) : bytes :=
+  match l with c :: r => if ws c then ref_trim_left ws r else l | [] => [] end.
+Definition ref_trim_right (ws : N -> bool) (l : bytes) : bytes := rev (ref_trim_left ws (rev l)).
+Definition ref_trim (ws : N -> bool) (l : bytes) : bytes := ref_trim_right ws (ref_trim_left ws l).
+Definition ref_is_framing_name (name : bytes) : bool :=
+  (fst (canon_name name) =? ID_CL) || (fst (canon_name name) =? ID_TE).
+Definition ref_value_ws (name : bytes) : N -> bool := if ref_is_framing_name name then ref_wsp else ref_ows.
 Fixpoint ref_before_colon (l : bytes) : option (bytes * bytes) :=
   match l with
   | [] => None
@@ -277,9 +291,9 @@ Definition ref_split (req : bool) (text : bytes) : option (bytes * bytes) :=
   match ref_before_colon text with
   | None => None
   | Some (raw_name, raw_value) =>
-    let name := if req then raw_name else ref_trim_right raw_name in
+    let name := if req then raw_name else ref_trim_right ref_ows raw_name in
     if (lenN name =? 0) || (65534 <? lenN raw_name) || negb (forallb cs_TCHAR name) then None
-    else let value := ref_trim raw_value in
+    else let value := ref_trim (ref_value_ws name) raw_value in
          if 65534 <? lenN value then None else Some (name, value)
   end.
 
